@@ -1425,8 +1425,10 @@ def _b_map_err(ev, n, a):
         if o.path == OK:
             return o
         if o.path == ERR:
-            if isinstance(f, Closure):
-                return V(ERR, (ev.apply_closure(f, [o.args[0]]),))
+            r = _callable(ev, f, [o.args[0]]) if (isinstance(f, Closure) or (isinstance(f, Sym) and f.what == "fnref" and
+                                                                            ev.lookup_fn(f.parts[0]) is not None)) else None
+            if r is not None:
+                return V(ERR, (r,))
             return V(ERR, (Sym("mapped", (o.args[0], f)),))
     return Sym("map_err", (o, f))
 
@@ -1471,8 +1473,9 @@ def _b_ok_or_else(ev, n, a):
         if o.path == SOME:
             return V(OK, (o.args[0],))
         if o.path == NONE:
-            if isinstance(f, Closure):
-                return V(ERR, (ev.apply_closure(f, []),))
+            r = _callable(ev, f, [])        # a closure or a named function (`ok_or_else(unit_required)`)
+            if r is not None:
+                return V(ERR, (r,))
             return V(ERR, (Sym("lazy", (f,)),))
     return Sym("ok_or_else", (o, f))
 
@@ -1627,6 +1630,13 @@ def _b_contains(ev, n, a):
         lo, hi = r.lo, r.hi
         if isinstance(lo, (int, float)) and isinstance(hi, (int, float)):
             return lo <= x <= hi if r.inclusive else lo <= x < hi
+    if isinstance(r, Range) and all(isinstance(v, V) and not v.args for v in (r.lo, r.hi, x)) and \
+            len({v.path.rsplit("::", 1)[0] for v in (r.lo, r.hi, x)}) == 1:
+        # a range of variants of one fieldless enum (`(Unit::Nanosecond..=Unit::Hour).contains(&u)`): by declaration order,
+        # as the derived ordering does
+        klo, khi, kx = ev.cmp_key(r.lo), ev.cmp_key(r.hi), ev.cmp_key(x)
+        if all(isinstance(k, int) for k in (klo, khi, kx)):
+            return klo <= kx <= khi if r.inclusive else klo <= kx < khi
     return Sym("contains", (r, x))
 
 
